@@ -237,3 +237,10 @@ Example C17_selection_state_example :
   snd (select_st (firstn 20 (enc doc)) [PRoot; PBracketWild] MAll ([7; 7], [2])) = Panic.
 Proof. exact select_st_example. Qed.
 Print Assumptions C17_selection_state_example.
+
+(* ---- LazyValue::write_to_vec (lazy_value.rs; model ValueApi.v): both variants only append, and append what to_vec returns *)
+From JB Require ValueApi ValueApiProofs.
+Theorem C17_lazy_write_to_vec_appends : forall l, (forall v, l = Dispatch.LValue v -> wf_size v = true) ->
+  forall buf, ValueApi.lazy_write_to_vec buf l = buf ++ Dispatch.lazy_to_vec l.
+Proof. exact ValueApiProofs.lazy_write_to_vec_appends. Qed.
+Print Assumptions C17_lazy_write_to_vec_appends.
